@@ -44,7 +44,7 @@ TCall == /\ HasLine("call")
          /\ CASE L.api \in {"send", "send_from", "event", "events_item", "allowed_item", "bound", "mixin_bound"}
                                         -> ExtCall(L.i, L.ev, L.gv)
               [] L.api = "activate"     -> Activate(L.i, L.gv)
-              [] L.api = "write_setter" -> WriteSetter(L.i, L.v)
+              [] L.api \in {"write_setter", "write_state"} -> WriteSetter(L.i, L.v)
               [] L.api = "write_model"  -> WriteModel(L.i, L.v)
               [] L.api = "set_attr"     -> SetTag(L.i, L.v)
               [] L.api = "add_listener" -> AddListeners(L.i, SeqToSet(L.vs))
